@@ -47,6 +47,10 @@ Definition opt_set_close (cmpb : bool) (tol : Q) (a b : option smset) : bool :=
   | _, _ => false
   end.
 
+(* lazy disjunction under vm_compute (orb evaluates both arguments) *)
+Fixpoint first_true {A} (f : A -> bool) (l : list A) : bool :=
+  match l with [] => false | a :: l' => if f a then true else first_true f l' end.
+
 Record verdict := { corr_ok : bool; spec_ok : bool; wf_ok : bool }.
 
 Section Failing.
